@@ -5633,6 +5633,7 @@ def merge_parts(parts, reassign="voice"):
             Tempo,
         )
 
+    n_previous_voices = 0
     for p_ind, p in enumerate(parts):
         if reassign == "auto":
             # find how many staves this part has
@@ -5653,12 +5654,15 @@ def merge_parts(parts, reassign="voice"):
             # find how many voices this part has
             n_voices = len(unique_voices[p_ind])
             # build a mapping between the old and new voices
+            # (four voices per staff, but never below the voices already given to previous parts)
+            voice_offset = max(n_previous_staves * 4, n_previous_voices)
             voice_mapping = dict(
                 zip(
                     unique_voices[p_ind],
-                    n_previous_staves * 4 + np.arange(1, n_voices + 1),
+                    voice_offset + np.arange(1, n_voices + 1),
                 )
             )
+            n_previous_voices = voice_offset + n_voices
         for e in p.iter_all():
             # full copy the first part and partially copy the others
             # we don't copy elements like duplicate barlines, clefs or
